@@ -107,9 +107,10 @@ def run_case(case):
         finished = {}           # leaf id -> 'ok' | 'err' | 'cancelled'
         max_running = [0]
         failed_order = []
+        selfcancelled = []
 
         def over(phase):
-            if len(running) > par and sema.double_released and error_event():
+            if len(running) > par and (sema.double_released or shape == 'legacy') and error_event():
                 compensated[0] += 1
             elif len(running) > par:
                 fails.append(('bound-exceeded' if phase == 1 else 'bound-exceeded-after',
@@ -140,6 +141,10 @@ def run_case(case):
                 finished[i] = 'cancelled'
                 raise
             del running[i]
+            if r == 'cancel':
+                finished[i] = 'selfcancel'
+                selfcancelled.append(i)
+                raise asyncio.CancelledError()
             if r == 'err':
                 finished[i] = 'err'
                 failed_order.append(i)
@@ -162,6 +167,10 @@ def run_case(case):
                     pfs = [functools.partial(leaf, i) for i in range(n)]
                     return await U.bounded_gather2(sema, *pfs, return_exceptions=(shape == 'return_exc'),
                                                    cancel_on_error=(shape == 'raise_cancel'))
+                if shape == 'legacy':
+                    # bounded_gather(parallelism=p) builds its own semaphore; leaves count themselves against p
+                    pfs = [functools.partial(leaf, i) for i in range(n)]
+                    return await U.bounded_gather(*pfs, parallelism=par, return_exceptions=False, cancel_on_error=bool(case.get('coe')))
                 if shape == 'tree':
                     k = case['fanout']
 
@@ -178,6 +187,7 @@ def run_case(case):
                     return await U.bounded_gather2_return_exceptions(sema, *[functools.partial(parent, p) for p in range(n)])
                 if shape == 'online':
                     async with U.OnlineBoundedGather2(sema) as pool:
+                        online['in_body'] = True
                         ts = [pool.call(leaf, i) for i in range(n)]
                         online['tasks'] = ts
                         sub = [ts[j % n] for j in case.get('wait', [])] if n else []
@@ -192,18 +202,21 @@ def run_case(case):
                                 online['late'] = 'shutdown'
                         if case.get('body_raises'):
                             flags['body'] = True
+                            online['in_body'] = False
                             raise BodyErr()
+                        online['in_body'] = False
                     return [t for t in ts]
 
         outer_task = loop.create_task(outer())
         loop.settle()
         cancelled_outer = False
+        n_outer_cancels = [0]
         cancelled_leaf_tasks = set()
         for step in plan:
             kind = step[0]
             if outer_task.done():
                 break
-            if kind in ('ok', 'err'):
+            if kind in ('ok', 'err', 'cerr'):
                 rs = sorted(running)
                 if not rs:
                     classes.add('skipped')
@@ -214,7 +227,10 @@ def run_case(case):
                     if len(rs) >= 2 and queued >= 1:
                         nontrivial = True
                         classes.add('failure_with_running_and_queued')
-                running[i].open(kind)
+                if kind == 'cerr':
+                    flags['cancel'] = True
+                    classes.add('leaf_raises_cancelled')
+                running[i].open('cancel' if kind == 'cerr' else kind)
             elif kind == 'clean':
                 cs = sorted(cleaning)
                 if not cs:
@@ -222,6 +238,10 @@ def run_case(case):
                 cleaning[cs[step[1] % len(cs)]].open()
             elif kind == 'cancel_outer':
                 cancelled_outer = True
+                online['cancelled_in_exit_wait'] = (shape == 'online' and online.get('in_body') is False)
+                n_outer_cancels[0] += 1
+                if failed_order or selfcancelled:
+                    n_outer_cancels[0] += 10      # a cancellation that interrupts the helper's own clean-up wait is not judged
                 flags['cancel'] = True
                 classes.add('cancel_outer')
                 outer_task.cancel()
@@ -254,14 +274,14 @@ def run_case(case):
             exc = None
             res = None
             if outer_task.cancelled():
-                if not cancelled_outer:
+                if not cancelled_outer and not selfcancelled:
                     fails.append(('spurious-cancel', 'the call is cancelled only if the caller cancelled it', 'outer got CancelledError'))
             else:
                 exc = outer_task.exception()
                 if exc is None:
                     res = outer_task.result()
             first_failed = failed_order[0] if failed_order else None
-            if shape in ('raise', 'raise_cancel') and not cancelled_outer:
+            if shape in ('raise', 'raise_cancel', 'legacy') and not cancelled_outer and not selfcancelled:
                 if first_failed is None:
                     if exc is not None:
                         fails.append(('raised-without-failure', 'raises only if a task failed', repr(exc)))
@@ -271,7 +291,7 @@ def run_case(case):
                     if not isinstance(exc, Err) or exc.args[0] != first_failed:
                         fails.append(('wrong-exception', 'raises exactly the first exception (in completion order)',
                                       f'got {exc!r} / result {res!r}; first failed leaf {first_failed}; failures in order {failed_order}'))
-            if shape == 'return_exc' and not cancelled_outer:
+            if shape == 'return_exc' and not cancelled_outer and not selfcancelled:
                 if exc is not None:
                     fails.append(('return-exc-raised', 'return_exceptions mode never raises', repr(exc)))
                 else:
@@ -283,7 +303,7 @@ def run_case(case):
                             fails.append(('return-exc-slot', 'every result or exception is returned in place',
                                           f'slot {i}: {pair!r} but leaf finished {st}'))
                             break
-            if shape == 'tree' and not cancelled_outer:
+            if shape == 'tree' and not cancelled_outer and not selfcancelled:
                 if exc is not None:
                     fails.append(('return-exc-raised', 'return_exceptions mode never raises', repr(exc)))
                 else:
@@ -296,7 +316,7 @@ def run_case(case):
                                               f'parent {p}: {pair!r}, first failed leaf {fl[0]}'))
                         elif pair != ([('v', p * 100 + j) for j in range(k)], None):
                             fails.append(('order', 'results are returned in submission order', f'parent {p}: {pair!r}'))
-            if shape == 'online' and not cancelled_outer:
+            if shape == 'online' and not cancelled_outer and not selfcancelled:
                 want = None
                 if failed_order and case.get('body_raises'):
                     want = 'either'
@@ -318,8 +338,14 @@ def run_case(case):
                     #  cancelled with the rest, so only the no-failure direction is checked)
                     fails.append(('late-call', 'call() is refused only after a failure shut the pool down',
                                   f'late call {online["late"]} although no task had failed'))
-            if not cancelled_outer and at_return.get('busy') and not (shape == 'raise' and exc is not None):
-                fails.append(('returned-with-running-task', 'cancels the remaining work when asked to and leaves no task running after it returns',
+            judged = (not cancelled_outer and not selfcancelled) or \
+                (shape in ('raise_cancel', 'online') and n_outer_cancels[0] <= 1 and len(selfcancelled) + (1 if failed_order else 0) + n_outer_cancels[0] <= 1)
+            raised = outer_task.cancelled() or exc is not None
+            if judged and at_return.get('busy') and not ((shape in ('raise', 'return_exc', 'tree') or (shape == 'legacy' and not case.get('coe'))) and raised):
+                sig = 'returned-with-running-task'
+                if shape == 'online' and online.get('cancelled_in_exit_wait') and not failed_order:
+                    sig = 'online-exit-wait-cancelled-leaves-tasks'
+                fails.append((sig, 'cancels the remaining work when asked to and leaves no task running after it returns',
                               f'helper handed control back while leaves {at_return["busy"]} were still running / cleaning up'))
             # no task left running (all modes once every gate has been completed and the loop drained)
             left = [t for t in asyncio.all_tasks(loop) if not t.done()]
@@ -378,18 +404,20 @@ def run_shard(spec, seed, tier):
     from hypothesis import strategies as st
     from vlib.hyp import search
     res = Result()
-    step = st.one_of(st.tuples(st.sampled_from(['ok', 'ok', 'err', 'clean']), st.integers(0, 5)).map(list),
+    step = st.one_of(st.tuples(st.sampled_from(['ok', 'ok', 'err', 'clean', 'cerr']), st.integers(0, 5)).map(list),
                      st.tuples(st.just('cancel_leaf'), st.integers(0, 5)).map(list),
                      st.just(['cancel_outer']))
-    stepnc = st.one_of(st.tuples(st.sampled_from(['ok', 'ok', 'err', 'clean']), st.integers(0, 5)).map(list),
+    stepnc = st.one_of(st.tuples(st.sampled_from(['ok', 'ok', 'err', 'clean', 'cerr']), st.integers(0, 5)).map(list),
                        st.tuples(st.just('cancel_leaf'), st.integers(0, 5)).map(list))
 
     @st.composite
     def cases(draw):
-        shape = draw(st.sampled_from(['raise', 'raise_cancel', 'return_exc', 'tree', 'online']))
+        shape = draw(st.sampled_from(['raise', 'raise_cancel', 'return_exc', 'tree', 'online', 'legacy']))
         c = dict(par=draw(st.integers(1, 5)), shape=shape, n=draw(st.integers(0, 8) if shape != 'tree' else st.integers(1, 4)))
         if shape == 'tree':
             c['fanout'] = draw(st.integers(1, 4))
+        if shape == 'legacy':
+            c['coe'] = draw(st.booleans())
         if shape == 'online':
             c['wait'] = draw(st.lists(st.integers(0, 7), max_size=3))
             c['body_raises'] = draw(st.booleans())
